@@ -51,18 +51,19 @@ type roundSpec struct {
 
 type groupState struct {
 	sharedGroup
-	gate    chan struct{}
-	once    sync.Once
-	arrived atomic.Int32
+	gate     chan struct{}
+	once     sync.Once
+	arrived  atomic.Int32
 	answered atomic.Int32
-	firstAt atomic.Int64
-	waiters atomic.Int32 // stub invocations that met a closed/open gate
+	firstAt  atomic.Int64
+	waiters  atomic.Int32 // stub invocations that met a closed/open gate
 }
 
 func (g *groupState) release() { g.once.Do(func() { close(g.gate) }) }
 
 type roundEnv struct {
 	r       *vlib.Run
+	sampled sync.Map // evidence: classes already sampled
 	name    string
 	spec    *roundSpec
 	st      *stack.Stack
@@ -91,7 +92,13 @@ func (env *roundEnv) matched(ep *endpoint, q *query) {
 	if q.Kind == kShared && q.Group > 0 && q.Group <= len(env.groups) {
 		env.groups[q.Group-1].answered.Add(1)
 	}
-	env.r.Distinct(env.name + "/" + ep.tr + "/" + q.Kind.String())
+	key := env.name + "/" + ep.tr + "/" + q.Kind.String()
+	env.r.Distinct(key)
+	// evidence: one matched exchange per (round, transport, kind) class, written out
+	if _, seen := env.sampled.LoadOrStore(key, true); !seen {
+		env.r.Sample(map[string]any{"round": env.name, "transport": ep.tr, "kind": q.Kind.String(),
+			"qname": q.Name, "qtype": q.Qtype, "id": q.ID, "verdict": "reply matched own id/question/answer, no foreign nonce"})
+	}
 }
 
 // sent is called by a client right after it put q on the wire.
